@@ -60,7 +60,8 @@ type c03MsgRev struct {
 }
 
 type c03Table struct {
-	Messages map[string]c03MsgRev `json:"messages"`
+	Messages map[string]c03MsgRev  `json:"messages"`
+	Wasm     map[string]c03WasmRev `json:"wasm_bindings"` // third round: CosmWasm custom-message bindings
 }
 
 type c03Struct struct {
@@ -1095,6 +1096,20 @@ func extractC03(c *Ctx) error {
 	c.P("(** Shapes of the object model (Auth/Objects.v): the request fields the duplicate-binding lookup of")
 	c.P("    SetERC20ToTokenDenom is keyed by; the keeper calls of tokenfactory's InitGenesis per imported denom, in order. *)")
 	c.P("Definition code_shape : shape := MkShape %s %s.", CoqStrList(bindGuard), CoqStrList(tfCalls))
+	wasmLines, wasmUnrev, nWasm, err := extractC03Wasm(c, tbl.Wasm)
+	if err != nil {
+		return err
+	}
+	if len(wasmUnrev) > 0 {
+		return fmt.Errorf("unreviewed wasm binding entries (add them to %s, wasm_bindings):\n  %s", tblPath, strings.Join(wasmUnrev, "\n  "))
+	}
+	c.P("")
+	c.P("(** CosmWasm custom-message bindings (libwasm router -> scheduler / skyway / tokenfactory messengers):")
+	c.P("    the creator of such a message is the DISPATCHING CONTRACT; one row per identity-bearing body field. *)")
+	c.P("Definition wasm_specs : list msgspec := [")
+	c.P("%s", strings.Join(wasmLines, ";\n"))
+	c.P("].")
+	c.Info("wasm_bindings", nWasm)
 	c.Info("index_rows", len(idxRows))
 	c.Info("bind_guard_fields", bindGuard)
 	c.Info("tf_import_calls", tfCalls)
